@@ -1382,4 +1382,164 @@ theorem flushN_spec (H : Hooks) (ord : State → List Nat → List Nat) (bfuel :
       exact ⟨i, v, t, e, b⟩
     exact flushLoopA_spec _ hn H ord bfuel hperm 50 s s' hinv hsv h
 
+/-! ### the link bookkeeping through nested flushes -/
+
+def NestedLK (f : State → Except Err State) : Prop := ∀ s s', LK s → f s = .ok s' → LK s'
+
+theorem applyOpA_lk (nested : State → Except Err State) (hn : NestedLK nested) (s s' : State) (op : HOp)
+    (h : applyOpA nested s op = .ok s') (hl : LK s) : LK s' := by
+  cases op with
+  | query =>
+    simp only [applyOpA] at h
+    by_cases hm : s.modified = true
+    · simp only [hm, if_true] at h; exact hn s s' hl h
+    · simp only [hm] at h; injection h with h; subst h; exact hl
+  | read o => exact applyOp_lk s s' _ (by simpa [applyOpA] using h) hl
+  | modify o => exact applyOp_lk s s' _ (by simpa [applyOpA] using h) hl
+  | create => exact applyOp_lk s s' _ (by simpa [applyOpA] using h) hl
+  | link a b => exact applyOp_lk s s' _ (by simpa [applyOpA] using h) hl
+  | unlink a b => exact applyOp_lk s s' _ (by simpa [applyOpA] using h) hl
+  | linkNewOwner b => exact applyOp_lk s s' _ (by simpa [applyOpA] using h) hl
+  | linkNewItem a => exact applyOp_lk s s' _ (by simpa [applyOpA] using h) hl
+  | setRef i g => exact applyOp_lk s s' _ (by simpa [applyOpA] using h) hl
+  | refNewTo g => exact applyOp_lk s s' _ (by simpa [applyOpA] using h) hl
+  | refToNew i => exact applyOp_lk s s' _ (by simpa [applyOpA] using h) hl
+
+theorem runOpsA_lk (nested : State → Except Err State) (hn : NestedLK nested) (ops : List HOp) :
+    ∀ (s s' : State), runOpsA nested ops s = .ok s' → LK s → LK s' := by
+  induction ops with
+  | nil => intro s s' h hl; simp [runOpsA] at h; subst h; exact hl
+  | cons op rest ih =>
+    intro s s' h hl
+    simp only [runOpsA] at h
+    cases ha : applyOpA nested s op with
+    | error e => simp [ha] at h
+    | ok s1 => simp only [ha] at h; exact ih s1 s' h (applyOpA_lk nested hn s s1 op ha hl)
+
+theorem afterLoopA_lk (nested : State → Except Err State) (hn : NestedLK nested) (H : Hooks) :
+    ∀ (sv : List (Nat × Kind)) (s s' : State), afterLoopA nested H sv s = .ok s' → LK s → LK s' := by
+  intro sv
+  induction sv with
+  | nil => intro s s' h hl; simp [afterLoopA] at h; subst h; exact hl
+  | cons p rest ih =>
+    intro s s' h hl
+    obtain ⟨o, k⟩ := p
+    simp only [afterLoopA] at h
+    cases hr : runOpsA nested (H.after k { s with trace := s.trace ++ [Event.after k o] } o) { s with trace := s.trace ++ [Event.after k o] } with
+    | error e1 => simp [hr] at h
+    | ok s2 => simp only [hr] at h; exact ih _ _ h (runOpsA_lk nested hn _ _ _ hr (hl.of_same rfl (fun hm => hm)))
+
+theorem roundA_lk (nested : State → Except Err State) (hn : NestedLK nested) (H : Hooks) (ord : State → List Nat → List Nat)
+    (bfuel : Nat) (s s' : State) (hl : LK s) (h : roundA nested H ord bfuel s = .ok s') : LK s' := by
+  simp only [roundA] at h
+  cases hb : beforeLoop H bfuel 0 s with
+  | error e => simp [hb] at h
+  | ok s1 =>
+    simp only [hb] at h
+    have hl1 := beforeLoop_lk H bfuel 0 s s1 hb hl
+    cases hs : savePhase (ord s1) (calcAndRemoveM2m s1) with
+    | error e => simp [hs] at h
+    | ok s2 =>
+      simp only [hs] at h
+      have h2 : s2.lk = (calcAndRemoveM2m s1).lk := saveAll_lk _ _ _ hs
+      obtain ⟨pa, pr, li, ma, mr, _⟩ := m2m_round_lk s1 s2 hl1 h2
+      refine afterLoopA_lk nested hn H _ _ s' h ⟨li, ⟨ma, mr⟩, ?_⟩
+      intro hp
+      rcases hp with hp | hp
+      · exact absurd pa hp
+      · exact absurd pr hp
+
+theorem flushLoopA_lk (nested : State → Except Err State) (hn : NestedLK nested) (H : Hooks) (ord : State → List Nat → List Nat)
+    (bfuel : Nat) : ∀ (n : Nat) (s s' : State), LK s → flushLoopA nested H ord bfuel n s = .ok s' → LK s' := by
+  intro n
+  induction n with
+  | zero =>
+    intro s s' hl h
+    simp only [flushLoopA] at h
+    split at h
+    · cases h
+    · cases h; exact hl
+  | succ n ih =>
+    intro s s' hl h
+    simp only [flushLoopA] at h
+    split at h
+    · cases h; exact hl
+    · cases hr : roundA nested H ord bfuel s with
+      | error e => simp [hr] at h
+      | ok s1 => simp only [hr] at h; exact ih s1 s' (roundA_lk nested hn H ord bfuel s s1 hl hr) h
+
+theorem flushN_lk (H : Hooks) (ord : State → List Nat → List Nat) (bfuel : Nat) :
+    ∀ (d : Nat) (s s' : State), LK s → flushN H ord bfuel d s = .ok s' → LK s' := by
+  intro d
+  induction d with
+  | zero => intro s s' _ h; simp [flushN] at h
+  | succ d ih =>
+    intro s s' hl h
+    simp only [flushN] at h
+    exact flushLoopA_lk _ (fun a a' ha hf => ih a a' ha hf) H ord bfuel 50 s s' hl h
+
+/-! ### obj.flush() with nested flushes in its after-phase -/
+
+theorem mem_clearSlots (q : List (Option Nat)) (l : List Nat) (p : Nat) : some p ∈ clearSlots q l ↔ some p ∈ q ∧ p ∉ l := by
+  simp only [clearSlots, List.mem_map]
+  constructor
+  · rintro ⟨e, he, hq⟩
+    cases e with
+    | none => simp at hq
+    | some o =>
+      simp at hq
+      obtain ⟨hnl, rfl⟩ := hq
+      exact ⟨he, hnl⟩
+  · rintro ⟨hq, hl⟩
+    exact ⟨some p, hq, by simp [hl]⟩
+
+theorem sublist_clearSlots (q : List (Option Nat)) (l : List Nat) :
+    ((clearSlots q l).filterMap id).Sublist (q.filterMap id) := by
+  induction q with
+  | nil => simp [clearSlots]
+  | cons e rest ih =>
+    cases e with
+    | none => simpa [clearSlots] using ih
+    | some o =>
+      by_cases hc : l.contains o = true
+      · simp only [clearSlots, List.map_cons, hc, if_true, List.filterMap_cons, id] at ih ⊢
+        exact List.Sublist.cons _ (by simpa [clearSlots] using ih)
+      · simp only [clearSlots, List.map_cons, hc, List.filterMap_cons, id] at ih ⊢
+        exact List.Sublist.cons₂ _ (by simpa [clearSlots] using ih)
+
+/-- the cache invariant after `obj._save_()` has written the list `l` of pending objects and cleared their queue slots -/
+theorem inv_after_entity_save (s1 s2 : State) (l : List Nat) (hinv : Inv s1)
+    (hq : s2.queue = s1.queue) (hm : s2.modified = s1.modified)
+    (hin : ∀ p, p ∈ l → ∃ ob, s2.objs[p]? = some ob ∧ kindOf ob.status = none ∧ ob.dirty = 0)
+    (hout : ∀ p, p ∉ l → s2.objs[p]? = s1.objs[p]?) :
+    Inv ({ s2 with queue := clearSlots s2.queue l, saved := [] } : State) := by
+  have hk : ∀ p, ({ s2 with queue := clearSlots s2.queue l, saved := [] } : State).kindAt p = if p ∈ l then none else s1.kindAt p := by
+    intro p
+    by_cases hp : p ∈ l
+    · obtain ⟨ob, hob, hk, _⟩ := hin p hp
+      simp [State.kindAt, hob, hk, hp]
+    · simp [State.kindAt, hout p hp, hp]
+  refine ⟨?_, ?_, ?_, ?_⟩
+  · intro p
+    rw [hk]
+    show some p ∈ clearSlots s2.queue l ↔ _
+    rw [mem_clearSlots, hq]
+    by_cases hp : p ∈ l
+    · simp [hp]
+    · simp only [hp, not_false_eq_true, and_true, if_false]; exact hinv.mem_iff p
+  · show ((clearSlots s2.queue l).filterMap id).Nodup
+    rw [hq]
+    exact List.Sublist.nodup (sublist_clearSlots s1.queue l) hinv.nodup
+  · intro p ob hob hpos
+    have hob' : s2.objs[p]? = some ob := hob
+    by_cases hp : p ∈ l
+    · obtain ⟨ob2, hob2, _, hd⟩ := hin p hp
+      rw [hob'] at hob2; injection hob2 with e; rw [e] at hpos; omega
+    · rw [hout p hp] at hob'; exact hinv.dirty p ob hob' hpos
+  · intro p hp
+    have : some p ∈ clearSlots s2.queue l := hp
+    rw [mem_clearSlots, hq] at this
+    show s2.modified = true
+    rw [hm]; exact hinv.flag p this.1
+
 end PonyVerif.Model.Hooks
